@@ -82,6 +82,19 @@ func (p *C09) Prepare(env *Env, tier string, seed uint64) error {
 			p.nflag++
 		}
 	}
+	// alias bombs: one anchored instance with k durations and m aliases of it.
+	// yaml.v3 refuses "excessive aliasing" per decoder; whoever decodes must
+	// not lose that protection
+	bombs := [][2]int{{30, 20}, {300, 200}, {3000, 2000}, {30000, 20000}}
+	for _, km := range bombs {
+		doc := "- &a\n  chord:\n    degree: \"1\"\n    name: \"\"\n  values:\n" + strings.Repeat("    - \"1/4\"\n", km[0]) + strings.Repeat("- *a\n", km[1])
+		for _, cmd := range [][]string{{"write", "parse"}, {"write"}, {"write", "conv", "-c", "cmt"}} {
+			st := Step{Step: simrt.Step{Argv: append([]string{}, cmd...), Seed: seed + uint64(len(p.cuts)), Stdin: &simrt.Stream{Data: []byte(doc)}}}
+			p.cuts = append(p.cuts, &Case{Property: "C09", Kind: "single", Seed: seed, Run: 1_000_000 + len(p.cuts), Steps: []Step{st},
+				Labels: []string{"fault:F6:yaml-shape", "alias-bomb"}})
+			p.nflag++
+		}
+	}
 	// cut-point enumeration: every truncation offset of nSent sentences
 	r := model.NewRand(seed, "C09/cuts")
 	for i := 0; i < nSent; i++ {
@@ -662,13 +675,31 @@ func (p *C09) genNonsense(r *model.Rand) (*nonsense, []string) {
 		b.StdinFrom = &zero
 		return a, b
 	}
-	switch r.Intn(21) {
+	switch r.Intn(24) {
+	case 21:
+		// a meter with a zero in it (op/meter.go is one of the validators the
+		// property is anchored in)
+		m := model.Pick(r, []string{"4/0", "3/0", "0/4", "0/0", "4/00", "7/0"})
+		return mk("zero-meter", "text", 0, textStep(mode, "", pre+head+"[1]{mtr="+m+"}"+post, seed))
+	case 22:
+		m := model.Pick(r, []string{"4/0", "3/0", "0/4", "0/0", "4/00", "7/0"})
+		inst := "- chord:\n    degree: \"1\"\n    name: \"\"\n  values:\n    - \"1\"\n  meter: \"" + m + "\"\n"
+		if r.Chance(1, 2) {
+			inst = "- values:\n    - \"1\"\n  meter: \"" + m + "\"\n"
+			if yamlPre == "" && yamlPost == "" {
+				yamlPost = goodInst
+			}
+		}
+		return mk("zero-meter", "yaml", 0, writeStep(wcmd, yamlPre+inst+yamlPost, seed))
+	case 23:
+		m := model.Pick(r, []string{"4/0", "3/0", "0/4", "0/0", "7/0"})
+		return mk("zero-meter", "flag", 0, writeStep(append(wcmd, "--meter", m), goodInst+yamlPost, seed))
 	case 0:
 		return mk("zero-duration", "text", 0, textStep(mode, "", pre+head+"["+model.Pick(r, []string{"0", "00", "0/4", "1,0"})+"]"+post, seed))
 	case 1:
 		return mk("zero-duration", "yaml", 0, writeStep(wcmd, yamlPre+"- chord:\n    degree: \"1\"\n    name: \"\"\n  values:\n    - \""+model.Pick(r, []string{"0", "0/4", "00"})+"\"\n"+yamlPost, seed))
 	case 2:
-		return mk("zero-denominator", "text", 0, textStep(mode, "", pre+head+"["+model.Pick(r, []string{"1/0", "3/00", "1,2/0"})+"]"+post, seed))
+		return mk("zero-denominator", "text", 0, textStep(mode, "", pre+head+"["+model.Pick(r, []string{"1/0", "3/00", "1,2/0", "0/0", "1,0/0", "00/0"})+"]"+post, seed))
 	case 3:
 		return mk("zero-denominator", "yaml", 0, writeStep(wcmd, yamlPre+"- values:\n    - \""+model.Pick(r, []string{"1/0", "0/0", "1/00", "1/2/0", "1/0/2", "3/0 ", "1/0x", "2/0/0"})+"\"\n"+goodInst+yamlPost, seed))
 	case 4:
@@ -1282,7 +1313,7 @@ func (p *C09) Extra() map[string]any {
 }
 
 func (p *C09) Rule() string {
-	return "cases: (1) one command with generated input and 0..3 faults (truncate inside/between tokens, corrupt bytes/tokens/lines, invalid UTF-8, over-long input, arbitrary flag values, faulty dictionary or input files, uncreatable -o, a destination that fills up after k bytes), under random delivery plan/map order/schedule; (2) labelled musical nonsense of the 10 classes of the property carried by text metadata, YAML field or flag, as single command or `text conv | write` pipeline; (3) every truncation offset of generated sentences; (4) every flag with every value of a list; (5) growth comparisons: the same command on n and 4n repetitions of a unit, logical clocks compared; non-trivial = a fault or nonsense label is present or the journal shows a non-identity choice; distinct as for C12 plus the fault/nonsense labels"
+	return "cases: (1) one command with generated input and 0..3 faults (truncate inside/between tokens, corrupt bytes/tokens/lines, invalid UTF-8, over-long input, arbitrary flag values, faulty dictionary or input files, uncreatable -o, a destination that fills up after k bytes), under random delivery plan/map order/schedule; (2) labelled musical nonsense of the classes of the property (and zero meters) carried by text metadata, YAML field or flag, as single command or `text conv | write` pipeline; (3) every truncation offset of generated sentences; (4) every flag with every value of a list; (5) growth comparisons: the same command on n and 4n repetitions of a unit, logical clocks compared; non-trivial = a fault or nonsense label is present or the journal shows a non-identity choice; distinct as for C12 plus the fault/nonsense labels"
 }
 
 func (p *C09) Assumptions() []string {
